@@ -155,6 +155,20 @@ func inputsFor(B int, thorough, legacy bool) []inputSpec {
 		if thorough {
 			lens = append(lens, 8<<20-1, 8<<20, 8<<20+1, 16<<20)
 		}
+		var out []inputSpec
+		for _, n := range lens {
+			for _, ct := range []string{"zeros", "p7", "lcg"} {
+				if n > 1<<20 && ct == "p7" && !thorough {
+					continue
+				}
+				out = append(out, inputSpec{n, ct})
+			}
+		}
+		if !thorough {
+			// one full, incompressible legacy block (it expands beyond 8 MiB)
+			out = append(out, inputSpec{8 << 20, "lcg"})
+		}
+		return out
 	} else if B > 65536 && !thorough {
 		lens = []int{0, B - 1, B, B + 1, 2*B + 1}
 	} else {
@@ -310,6 +324,8 @@ func (s *countSink) Write(p []byte) (int, error) {
 	return s.buf.Write(p)
 }
 
+var writeScratch []byte
+
 // produceFrame runs the Writer. Any error or panic is reported through err.
 func produceFrame(o wopts, input []byte, d delivery) (frame []byte, err error) {
 	defer func() {
@@ -342,7 +358,13 @@ func produceFrame(o wopts, input []byte, d delivery) (frame []byte, err error) {
 					return nil, fmt.Errorf("empty Write returned %d, %v", n, e)
 				}
 			}
-			n, e := w.Write(input[prev:c])
+			// the caller hands over a buffer of its own and reuses it as soon as Write has returned
+			chunk := append(writeScratch[:0], input[prev:c]...)
+			writeScratch = chunk
+			n, e := w.Write(chunk)
+			for j := 0; j < len(chunk); j += 1 + len(chunk)/512 {
+				chunk[j] ^= 0xA7
+			}
 			if e != nil {
 				return nil, fmt.Errorf("Write: %w", e)
 			}
